@@ -471,3 +471,20 @@ def result(sim: Sim, nontrivial: bool = True, **extra) -> dict:
     }
     r.update(extra)
     return r
+
+
+def enable_extended_advertising(controller, with_create_connection: bool = True) -> None:
+    """Configuration swarm: make a virtual controller advertise the extended-advertising feature and commands."""
+    from bumble import hci
+
+    controller.le_features = controller.le_features | hci.LeFeatureMask.LE_EXTENDED_ADVERTISING
+    cmds = {
+        hci.HCI_LE_SET_EXTENDED_ADVERTISING_PARAMETERS_COMMAND, hci.HCI_LE_SET_EXTENDED_ADVERTISING_DATA_COMMAND,
+        hci.HCI_LE_SET_EXTENDED_SCAN_RESPONSE_DATA_COMMAND, hci.HCI_LE_SET_EXTENDED_ADVERTISING_ENABLE_COMMAND,
+        hci.HCI_LE_SET_ADVERTISING_SET_RANDOM_ADDRESS_COMMAND, hci.HCI_LE_READ_NUMBER_OF_SUPPORTED_ADVERTISING_SETS_COMMAND,
+        hci.HCI_LE_READ_MAXIMUM_ADVERTISING_DATA_LENGTH_COMMAND, hci.HCI_LE_REMOVE_ADVERTISING_SET_COMMAND,
+        hci.HCI_LE_CLEAR_ADVERTISING_SETS_COMMAND,
+    }
+    if with_create_connection:
+        cmds.add(hci.HCI_LE_EXTENDED_CREATE_CONNECTION_COMMAND)
+    controller.supported_commands = set(controller.supported_commands) | cmds
